@@ -23,7 +23,7 @@ def operands(rnd, small=False):
            dur(s=7, us=500000), dur(s=-7, us=-500000), dur(us=2), dur(us=5), dur(us=15), dur(s=1800)]
     for _ in range(6):
         if small:
-            out.append(dur(s=rnd.randrange(-1500, 1500), us=rnd.randrange(-999999, 10 ** 6)))
+            out.append(dur(s=rnd.randrange(-990, 990), us=rnd.randrange(-999999, 10 ** 6)))
         else:
             out.append(dur(d=rnd.randrange(-3000, 3000), s=rnd.randrange(-86399, 86400), us=rnd.randrange(-999999, 10 ** 6)))
     return out
@@ -70,8 +70,8 @@ def drive(ctx):
     # duration (/) duration on operands that fit the limb bounds: sub-2000 s microsecond values and whole seconds
     sx = operands(rnd, small=True)
     sy = operands(rnd, small=True)
-    whole = [dur(s=1), dur(s=-1), dur(s=7), dur(d=1), dur(d=-3, s=5), dur(h=5), dur(d=20000), dur(s=-86399),
-             dur(d=rnd.randrange(-20000, 20000), s=rnd.randrange(86400))]
+    whole = [dur(s=1), dur(s=-1), dur(s=7), dur(d=1), dur(d=-3, s=5), dur(h=5), dur(d=11000), dur(s=-86399),
+             dur(d=rnd.randrange(-11000, 11000), s=rnd.randrange(86400))]
     pairs = ctx.mine([(x, y) for x in sx for y in sy] + [(x, y) for x in whole for y in whole])
     if q:
         pairs = rnd.sample(pairs, min(len(pairs), 20))
